@@ -33,6 +33,31 @@ var sources = []*source{
 	{"agg", func(l string) string {
 		return fmt.Sprintf("$src = new IA();\n  $src->add(%s);\n  $got = null;\n  foreach ($src as $sv) { $got = $sv; }", l)
 	}, "$got"},
+	// history: the array was earlier iterated by reference / bound by reference and unbound /
+	// passed by reference, and no reference is live any more when it travels the route
+	{"hist-foreach-ref", func(l string) string {
+		return fmt.Sprintf("$got = %s;\n  foreach ($got as &$hv) { $hn = 1; }\n  unset($hv);", l)
+	}, "$got"},
+	{"hist-foreach-ref-key", func(l string) string {
+		return fmt.Sprintf("$got = %s;\n  foreach ($got as $hk => &$hv) { $hn = $hk; }\n  unset($hv);", l)
+	}, "$got"},
+	{"hist-foreach-ref-write", func(l string) string {
+		return fmt.Sprintf("$got = %s;\n  foreach ($got as &$hv) { if (is_int($hv)) { $hv = $hv + 1; } }\n  unset($hv);", l)
+	}, "$got"},
+	{"hist-foreach-ref-twice", func(l string) string {
+		return fmt.Sprintf("$got = %s;\n  foreach ($got as &$hv) { $hn = 1; }\n  unset($hv);\n  foreach ($got as &$hw) { $hn = 2; }\n  unset($hw);", l)
+	}, "$got"},
+	{"hist-ref-bind", func(l string) string {
+		// the reference stays live ($got and $hr are one variable); reading $got still yields a
+		// value. (unset($hr) is not used: on origami it writes null through the reference.)
+		return fmt.Sprintf("$got = %s;\n  $hr = &$got;\n  $hn = count($hr);", l)
+	}, "$got"},
+	{"hist-byref-param", func(l string) string {
+		return fmt.Sprintf("$got = %s;\n  $hn = hist_touch($got);", l)
+	}, "$got"},
+	{"hist-byref-write", func(l string) string {
+		return fmt.Sprintf("$got = %s;\n  hist_write($got);", l)
+	}, "$got"},
 	{"countable", func(l string) string {
 		return fmt.Sprintf("$src = new CW();\n  $src->add(%s);\n  $sn = count($src);", l)
 	}, "$src->get($sn - 1)"},
@@ -40,7 +65,9 @@ var sources = []*source{
 
 // classes of the sources and of the container routes; peek() returns the internal array
 // of the container for inspection
-const containerPrelude = `class AA implements ArrayAccess {
+const containerPrelude = `function hist_touch(&$x) { return count($x); }
+function hist_write(&$x) { $x[] = 'H'; array_pop($x); return 1; }
+class AA implements ArrayAccess {
   private $items = [];
   public function offsetExists($k): bool { return isset($this->items[$k]); }
   public function offsetGet($k): mixed { return $this->items[$k]; }
@@ -48,6 +75,7 @@ const containerPrelude = `class AA implements ArrayAccess {
   public function offsetUnset($k): void { unset($this->items[$k]); }
   public function peek($k) { return $this->items[$k]; }
 }
+class HD { public $n = 1; }
 class MG {
   private $data = [];
   public function __get($n) { return $this->data[$n]; }
@@ -117,4 +145,56 @@ var containerRoutes = []route{
 	boxRead("countable-read", "new CW()", "$box->add($t)", "$box->get(count($box) - 1)", "$box->peek(0)"),
 }
 
-func init() { routes = append(routes, containerRoutes...) }
+// object flavours for the "stored into / read from an object property" routes
+func objStore(name, mk string) route {
+	return route{name, kindValue, both(), func(c *caseCtx) (string, string) {
+		o, m := c.pick("$a", "$h->arr")
+		return "", fmt.Sprintf("$a = %s;\n  $h = %s;\n  $h->arr = $a;\n  %s", c.lit, mk, c.around(o, m))
+	}}
+}
+
+func objRead(name, mk string) route {
+	return route{name, kindValue, both(), func(c *caseCtx) (string, string) {
+		o, m := c.pick("$h->arr", "$b")
+		return "", fmt.Sprintf("$h = %s;\n  $h->arr = %s;\n  $b = $h->arr;\n  %s", mk, c.lit, c.around(o, m))
+	}}
+}
+
+func objClone(name, mk string) route {
+	return route{name, kindValue, both(), func(c *caseCtx) (string, string) {
+		o, m := c.pick("$h->arr", "$k->arr")
+		return "", fmt.Sprintf("$h = %s;\n  $h->arr = %s;\n  $k = clone $h;\n  %s", mk, c.lit, c.around(o, m))
+	}}
+}
+
+var objectRoutes = []route{
+	objStore("objcast-store", "(object)['n' => 1]"),
+	objStore("json-store", "json_decode('{\"n\":1}')"),
+	objStore("std-store", "new stdClass()"),
+	objStore("dyn-store", "new HD()"),
+	objRead("objcast-read", "(object)['n' => 1]"),
+	objRead("json-read", "json_decode('{\"n\":1}')"),
+	objRead("std-read", "new stdClass()"),
+	objRead("dyn-read", "new HD()"),
+	objClone("std-clone", "new stdClass()"),
+	{"objcast-lit", kindValue, both(), func(c *caseCtx) (string, string) {
+		o, m := c.pick("$a", "$h->arr")
+		return "", fmt.Sprintf("$a = %s;\n  $h = (object)['arr' => $a];\n  %s", c.lit, c.around(o, m))
+	}},
+	{"objcast-two", kindValue, both(), func(c *caseCtx) (string, string) {
+		// the same array stored into two class-less objects
+		o, m := c.pick("$h->arr", "$h2->arr")
+		return "", fmt.Sprintf("$a = %s;\n  $h = (object)['n' => 1];\n  $h2 = json_decode('{\"n\":2}');\n  $h->arr = $a;\n  $h2->arr = $a;\n  %s", c.lit, c.around(o, m))
+	}},
+	{"arrayobject-ctor", kindValue, []string{"orig"}, func(c *caseCtx) (string, string) {
+		return "", fmt.Sprintf("$a = %s;\n  $h = new ArrayObject($a);\n  %s", c.lit, c.around("$h->getArrayCopy()", "$a"))
+	}},
+	{"arrayobject-copy", kindValue, []string{"copy"}, func(c *caseCtx) (string, string) {
+		return "", fmt.Sprintf("$h = new ArrayObject(%s);\n  $b = $h->getArrayCopy();\n  %s", c.lit, c.around("$h->getArrayCopy()", "$b"))
+	}},
+	{"arrayobject-elem", kindValue, []string{"orig"}, func(c *caseCtx) (string, string) {
+		return "", fmt.Sprintf("$a = %s;\n  $h = new ArrayObject();\n  $h['k'] = $a;\n  %s", c.lit, c.around("$h['k']", "$a"))
+	}},
+}
+
+func init() { routes = append(append(routes, containerRoutes...), objectRoutes...) }
